@@ -26,9 +26,15 @@
 //!   `nlx <fam> <wd> <attrs> <ann>` the three sections of an UPDATE as given - `attrs` may hold MP attributes of any
 //!                                 family - re-added by a builder of the NLRI type `fam` (not c4) in a four-octet
 //!                                 session (+ ADD-PATH for `fam`a): placement of the NLRI in mixed UPDATEs
-//!   nl: `rej` | `err` | `ok w=<hex> a=<hex> o=<hex>`: the PDU built by `from_update_message` +
-//!       `add_announcements_from_pdu` + `add_withdrawals_from_pdu` + `into_message`, cut into the
-//!       NLRI octets of its MP_UNREACH_NLRI / MP_REACH_NLRI and its other attributes.
+//!   `nlt <fam> <wd> <ann> <attrs>` as `nl`, the message re-added TWICE by one builder (the second round extends the
+//!                                 MP builders the first one created)
+//!   (nl / nl2 / nlx / nlt: the source UPDATE may have up to 65535 octets - `from_octets` has no 4096-octet rule)
+//!   nl: `rej` | `err` | `ok w=<hex> a=<hex> o=<hex> r=<hex> u=<hex> d=<len>.<fnv32>.<sum32>`: the PDU built by
+//!       `from_update_message` + `add_announcements_from_pdu` + `add_withdrawals_from_pdu` + `into_message`, cut into
+//!       the NLRI octets of its MP_UNREACH_NLRI / MP_REACH_NLRI, its other attributes, what `finish` wrote in front of
+//!       the NLRI of MP_REACH_NLRI (`r=`: header, AFI/SAFI, next hop, reserved) / MP_UNREACH_NLRI (`u=`), and a digest
+//!       of the whole PDU.  `err` = `into_message` refused (PduTooLarge: known finding K16 when the re-framed PDU
+//!       really exceeds 4096 octets - the oracle computes that size itself).
 //!
 //! The oracle re-decodes every output with the walker below (RFC 4271 4.3 framing, written
 //! here, sharing nothing with routecore) and compares codes, flags and values with what the
@@ -438,7 +444,6 @@ fn ref_read(var: &c05::Var, b: &[u8]) -> Option<(Val, usize)> {
 /// reference encoding of its value (c05 `ref_enc`): two encodings of one NLRI (FlowSpec length in
 /// one or two octets, a route target length that is not a multiple of 8, any VPLS length field)
 /// compare equal; `true` = the octets end with the last item
-fn ref_items(f: Fam, b: &[u8]) -> (Vec<Vec<u8>>, bool) { let (o, c, _) = ref_items_tol(f, b); (o, c) }
 
 /// `ref_items`, and whether the list stopped at an item that is outside what the RFCs define although
 /// the unchanged parser reads it (c05 `wire_tolerated` / `ref_tolerated`: a route-target length other
@@ -506,11 +511,17 @@ fn exec_re(attrs: &[u8], two: Option<bool>) -> String {
 }
 
 macro_rules! readd {
-    ($A:ty, $src:expr, $sc:expr) => {{
+    ($A:ty, $src:expr, $sc:expr, $twice:expr) => {{
         match UpdateBuilder::<Vec<u8>, $A>::from_update_message($src, $sc, Vec::new()) {
             Ok(mut b) => {
                 b.add_announcements_from_pdu::<Bytes, Bytes>($src, $sc);
                 b.add_withdrawals_from_pdu::<Bytes, Bytes>($src, $sc);
+                // `nlt`: the same message re-added a second time - the branch of update_builder.rs:250 / :277 that
+                // EXTENDS the MP builders the first round created
+                if $twice {
+                    b.add_announcements_from_pdu::<Bytes, Bytes>($src, $sc);
+                    b.add_withdrawals_from_pdu::<Bytes, Bytes>($src, $sc);
+                }
                 b.into_message($sc).map(|m| m.as_ref().to_vec()).map_err(|_| ())
             }
             Err(_) => Err(()),
@@ -518,76 +529,95 @@ macro_rules! readd {
     }};
 }
 
-/// NLRI octets of MP_UNREACH / MP_REACH and the other attributes of a built PDU
-fn cut_built(pdu: &[u8]) -> Option<(Vec<u8>, Vec<u8>, Vec<u8>)> {
+/// NLRI octets of MP_UNREACH / MP_REACH, the other attributes of a built PDU, and what `finish` wrote in front of
+/// the NLRI of the two MP attributes (attribute header, AFI/SAFI, next hop length + octets, reserved octet)
+fn cut_built(pdu: &[u8]) -> Option<(Vec<u8>, Vec<u8>, Vec<u8>, Vec<u8>, Vec<u8>)> {
     if pdu.len() < 23 || pdu[19] != 0 || pdu[20] != 0 { return None; }
     let al = u16::from_be_bytes([pdu[21], pdu[22]]) as usize;
     if pdu.len() != 23 + al { return None; }
-    let (mut w, mut a, mut o) = (Vec::new(), Vec::new(), Vec::new());
+    let (mut w, mut a, mut o, mut mr, mut mu) = (Vec::new(), Vec::new(), Vec::new(), Vec::new(), Vec::new());
+    let head = |fl: u8, code: u8, n: usize| -> Vec<u8> {
+        let mut h = vec![fl, code];
+        if fl & 0x10 != 0 { h.extend((n as u16).to_be_bytes()); } else { h.push(n as u8); }
+        h
+    };
     for (fl, code, val) in walk(&pdu[23..])? {
         match code {
-            14 => { if val.len() < 5 { return None; } let nh = val[3] as usize; if val.len() < 5 + nh { return None; } a.extend_from_slice(&val[5 + nh..]); }
-            15 => { if val.len() < 3 { return None; } w.extend_from_slice(&val[3..]); }
-            _ => {
-                o.push(fl); o.push(code);
-                if fl & 0x10 != 0 { o.extend((val.len() as u16).to_be_bytes()); } else { o.push(val.len() as u8); }
-                o.extend_from_slice(&val);
+            14 => {
+                if val.len() < 5 { return None; }
+                let nh = val[3] as usize;
+                if val.len() < 5 + nh { return None; }
+                a.extend_from_slice(&val[5 + nh..]);
+                mr.extend(head(fl, code, val.len())); mr.extend_from_slice(&val[..5 + nh]);
             }
+            15 => {
+                if val.len() < 3 { return None; }
+                w.extend_from_slice(&val[3..]);
+                mu.extend(head(fl, code, val.len())); mu.extend_from_slice(&val[..3]);
+            }
+            _ => { o.extend(head(fl, code, val.len())); o.extend_from_slice(&val); }
         }
     }
-    Some((w, a, o))
+    Some((w, a, o, mr, mu))
 }
 
-fn exec_nl(f: Fam, wd: &[u8], ann: &[u8], attrs: &[u8], four: bool) -> String {
+fn fnv32(raw: &[u8]) -> u32 { raw.iter().fold(2166136261u32, |h, b| (h ^ *b as u32).wrapping_mul(16777619)) }
+fn sum32(raw: &[u8]) -> u32 { raw.iter().fold(0u32, |s, b| s.wrapping_add(*b as u32)) }
+/// FNV-1a and octet sum of the WHOLE built PDU (marker, lengths, everything `cut_built` drops): compared with the
+/// model's octets by the correspondence
+fn digest(raw: &[u8]) -> String { format!("{}.{}.{}", raw.len(), fnv32(raw), sum32(raw)) }
+
+fn exec_nl(f: Fam, wd: &[u8], ann: &[u8], attrs: &[u8], four: bool, twice: bool) -> String {
     if has_mp(attrs) { return "bad-op".into(); }
     // K9 (AS_PATH / AGGREGATOR written four octets wide) is judged on the re2w lines
     if !four && has_width_dependent(attrs) { return "bad-op".into(); }
-    exec_readd(f, nl_pdu(f, wd, ann, attrs), four)
+    exec_readd(f, nl_pdu(f, wd, ann, attrs), four, twice)
 }
 
 /// `nlx`: the three sections as given (the attributes may hold MP attributes of any family)
 fn exec_nlx(f: Fam, wd: &[u8], attrs: &[u8], ann: &[u8]) -> String {
     if f.conv { return "bad-op".into(); }
-    exec_readd(f, mk_pdu(wd, attrs, ann), true)
+    exec_readd(f, mk_pdu(wd, attrs, ann), true, false)
 }
 
-fn exec_readd(f: Fam, raw: Vec<u8>, four: bool) -> String {
-    if raw.len() > MAX_PDU { return "bad-op".into(); }
+fn exec_readd(f: Fam, raw: Vec<u8>, four: bool, twice: bool) -> String {
+    // `UpdateMessage::from_octets` has no 4096-octet rule: the source may be as long as the length field can say
+    if raw.len() > 65535 { return "bad-op".into(); }
     let mut sc = if four { SessionConfig::modern() } else { SessionConfig::legacy() };
     if f.ap { let (a, s, _) = fam_info(f); sc.add_addpath_rxtx(AfiSafiType::from((a, s))); }
     let src = match UpdateMessage::from_octets(Bytes::from(raw), &sc) { Ok(p) => p, Err(_) => return "rej".into() };
     let built: Result<Vec<u8>, ()> = match (f.b, f.ap) {
-        (V4u, false) => readd!(Ipv4UnicastNlri, &src, &sc),
-        (V4u, true) => readd!(Ipv4UnicastAddpathNlri, &src, &sc),
-        (V4m, false) => readd!(Ipv4MulticastNlri, &src, &sc),
-        (V4m, true) => readd!(Ipv4MulticastAddpathNlri, &src, &sc),
-        (V4mpls, false) => readd!(Ipv4MplsUnicastNlri<Bytes>, &src, &sc),
-        (V4mpls, true) => readd!(Ipv4MplsUnicastAddpathNlri<Bytes>, &src, &sc),
-        (V4vpn, false) => readd!(Ipv4MplsVpnUnicastNlri<Bytes>, &src, &sc),
-        (V4vpn, true) => readd!(Ipv4MplsVpnUnicastAddpathNlri<Bytes>, &src, &sc),
-        (V4rt, false) => readd!(Ipv4RouteTargetNlri<Bytes>, &src, &sc),
-        (V4rt, true) => readd!(Ipv4RouteTargetAddpathNlri<Bytes>, &src, &sc),
-        (V4fs, false) => readd!(Ipv4FlowSpecNlri<Bytes>, &src, &sc),
-        (V4fs, true) => readd!(Ipv4FlowSpecAddpathNlri<Bytes>, &src, &sc),
-        (V6u, false) => readd!(Ipv6UnicastNlri, &src, &sc),
-        (V6u, true) => readd!(Ipv6UnicastAddpathNlri, &src, &sc),
-        (V6m, false) => readd!(Ipv6MulticastNlri, &src, &sc),
-        (V6m, true) => readd!(Ipv6MulticastAddpathNlri, &src, &sc),
-        (V6mpls, false) => readd!(Ipv6MplsUnicastNlri<Bytes>, &src, &sc),
-        (V6mpls, true) => readd!(Ipv6MplsUnicastAddpathNlri<Bytes>, &src, &sc),
-        (V6vpn, false) => readd!(Ipv6MplsVpnUnicastNlri<Bytes>, &src, &sc),
-        (V6vpn, true) => readd!(Ipv6MplsVpnUnicastAddpathNlri<Bytes>, &src, &sc),
-        (V6fs, false) => readd!(Ipv6FlowSpecNlri<Bytes>, &src, &sc),
-        (V6fs, true) => readd!(Ipv6FlowSpecAddpathNlri<Bytes>, &src, &sc),
-        (Vpls, false) => readd!(L2VpnVplsNlri, &src, &sc),
-        (Vpls, true) => readd!(L2VpnVplsAddpathNlri, &src, &sc),
-        (Evpn, false) => readd!(L2VpnEvpnNlri<Bytes>, &src, &sc),
-        (Evpn, true) => readd!(L2VpnEvpnAddpathNlri<Bytes>, &src, &sc),
+        (V4u, false) => readd!(Ipv4UnicastNlri, &src, &sc, twice),
+        (V4u, true) => readd!(Ipv4UnicastAddpathNlri, &src, &sc, twice),
+        (V4m, false) => readd!(Ipv4MulticastNlri, &src, &sc, twice),
+        (V4m, true) => readd!(Ipv4MulticastAddpathNlri, &src, &sc, twice),
+        (V4mpls, false) => readd!(Ipv4MplsUnicastNlri<Bytes>, &src, &sc, twice),
+        (V4mpls, true) => readd!(Ipv4MplsUnicastAddpathNlri<Bytes>, &src, &sc, twice),
+        (V4vpn, false) => readd!(Ipv4MplsVpnUnicastNlri<Bytes>, &src, &sc, twice),
+        (V4vpn, true) => readd!(Ipv4MplsVpnUnicastAddpathNlri<Bytes>, &src, &sc, twice),
+        (V4rt, false) => readd!(Ipv4RouteTargetNlri<Bytes>, &src, &sc, twice),
+        (V4rt, true) => readd!(Ipv4RouteTargetAddpathNlri<Bytes>, &src, &sc, twice),
+        (V4fs, false) => readd!(Ipv4FlowSpecNlri<Bytes>, &src, &sc, twice),
+        (V4fs, true) => readd!(Ipv4FlowSpecAddpathNlri<Bytes>, &src, &sc, twice),
+        (V6u, false) => readd!(Ipv6UnicastNlri, &src, &sc, twice),
+        (V6u, true) => readd!(Ipv6UnicastAddpathNlri, &src, &sc, twice),
+        (V6m, false) => readd!(Ipv6MulticastNlri, &src, &sc, twice),
+        (V6m, true) => readd!(Ipv6MulticastAddpathNlri, &src, &sc, twice),
+        (V6mpls, false) => readd!(Ipv6MplsUnicastNlri<Bytes>, &src, &sc, twice),
+        (V6mpls, true) => readd!(Ipv6MplsUnicastAddpathNlri<Bytes>, &src, &sc, twice),
+        (V6vpn, false) => readd!(Ipv6MplsVpnUnicastNlri<Bytes>, &src, &sc, twice),
+        (V6vpn, true) => readd!(Ipv6MplsVpnUnicastAddpathNlri<Bytes>, &src, &sc, twice),
+        (V6fs, false) => readd!(Ipv6FlowSpecNlri<Bytes>, &src, &sc, twice),
+        (V6fs, true) => readd!(Ipv6FlowSpecAddpathNlri<Bytes>, &src, &sc, twice),
+        (Vpls, false) => readd!(L2VpnVplsNlri, &src, &sc, twice),
+        (Vpls, true) => readd!(L2VpnVplsAddpathNlri, &src, &sc, twice),
+        (Evpn, false) => readd!(L2VpnEvpnNlri<Bytes>, &src, &sc, twice),
+        (Evpn, true) => readd!(L2VpnEvpnAddpathNlri<Bytes>, &src, &sc, twice),
     };
     match built {
         Err(()) => "err".into(),
         Ok(pdu) => match cut_built(&pdu) {
-            Some((w, a, o)) => format!("ok w={} a={} o={}", hex(&w), hex(&a), hex(&o)),
+            Some((w, a, o, mr, mu)) => format!("ok w={} a={} o={} r={} u={} d={}", hex(&w), hex(&a), hex(&o), hex(&mr), hex(&mu), digest(&pdu)),
             None => format!("ok undecodable {}", hex(&pdu)),
         },
     }
@@ -656,19 +686,47 @@ fn kv<'a>(tok: &'a str, k: &str) -> Result<Vec<u8>, String> {
     unhex(tok.strip_prefix(k).ok_or(format!("missing {}", k))?).ok_or(format!("hex in {}", k))
 }
 
-fn oracle_nl(f: Fam, wd: &[u8], ann: &[u8], attrs: &[u8], reply: &str, four: bool) -> Result<(), String> {
-    oracle_readd(f, wd, ann, false, attrs, reply, four)
+/// what the property demands on one side (announced / withdrawn) of the re-added PDU: the NLRI of the builder's
+/// family as the canonical reference encodings of their values (`ref_items`), in order.  `tol`: the list reached
+/// an item the RFCs do not define (an implementation may accept or reject it): the items before it are demanded,
+/// what follows is not judged; `slack` = the octets an implementation may then carry beyond `items`.
+#[derive(Clone)]
+struct Want { items: Vec<Vec<u8>>, tol: bool, slack: usize }
+
+fn want_of(f: Fam, octets: &[u8]) -> Want {
+    let (items, _, tol) = ref_items_tol(f, octets);
+    Want { items, tol, slack: if tol { octets.len() + 64 } else { 0 } }   // (+ an MP attribute that may appear only because of them)
+}
+impl Want {
+    /// the NLRI of a later section of the same side follow (K15: conventional section, then the MP attribute)
+    fn then(mut self, o: Want) -> Want {
+        if self.tol { self.slack += o.slack + o.items.iter().map(|x| x.len() + 1).sum::<usize>(); return self; }
+        self.items.extend(o.items); self.tol = o.tol; self.slack = o.slack; self
+    }
+    /// the same list re-added a second time (`nlt`)
+    fn twice(self) -> Want { let o = self.clone(); self.then(o) }
+}
+
+fn oracle_nl(f: Fam, wd: &[u8], ann: &[u8], attrs: &[u8], reply: &str, four: bool, twice: bool) -> Result<(), String> {
+    if reply == "bad-op" || reply == "rej" { return Ok(()); }
+    let (w, a) = (want_of(f, wd), want_of(f, ann));
+    let (w, a) = if twice { (w.twice(), a.twice()) } else { (w, a) };
+    oracle_readd(f, &w, &a, attrs, reply, four, nl_pdu(f, wd, ann, attrs).len(), twice)
 }
 
 /// the NLRI octets of family `f` an UPDATE with these sections carries on one side (`code` 14: announced,
-/// 15: withdrawn), read off the octets by RFC 4271 4.3 / RFC 4760 3, 4: the conventional section for IPv4
-/// unicast when it is not empty, else the first MP attribute of that type when it is of the family and
-/// framed (AFI, SAFI, next hop, reserved octet).  `.1` = IPv4 unicast NLRI are present BOTH in the
-/// conventional section and in an MP attribute of AFI/SAFI 1/1: a builder typed by one NLRI type reads
-/// one section (the conventional one); what the property asks of the other is not judged.
-fn carried(f: Fam, conv: &[u8], attrs: &[Tlv], code: u8) -> (Vec<u8>, bool) {
+/// 15: withdrawn), read off the octets by RFC 4271 4.3 / RFC 4760 3, 4 - every section, not a choice of one:
+/// `conv` = the conventional section when the family is IPv4 unicast, `mp` = the NLRI of the MP attribute of that
+/// type when it is of the family and framed (AFI, SAFI, next hop, reserved octet).  When the UPDATE holds the
+/// attribute more than once - RFC 7606 3.g gives such an UPDATE no meaning ("MUST be treated as malformed":
+/// routecore's `from_octets` accepts it all the same); the FIRST one is judged as the attribute, the NLRI of the
+/// later ones are not judged (visible as `+dupmp` in the class).
+struct Carried { conv: Vec<u8>, mp: Vec<u8> }
+
+fn carried(f: Fam, conv: &[u8], attrs: &[Tlv], code: u8) -> Carried {
     let (afi, safi, _) = fam_info(f);
-    let mp = attrs.iter().find(|t| t.1 == code).and_then(|t| {
+    let all: Vec<&Tlv> = attrs.iter().filter(|t| t.1 == code).collect();
+    let mp = all.first().and_then(|t| {
         let v = &t.2;
         if v.len() < 3 || u16::from_be_bytes([v[0], v[1]]) != afi || v[2] != safi { return None; }
         if code == 15 { return Some(v[3..].to_vec()); }
@@ -677,66 +735,99 @@ fn carried(f: Fam, conv: &[u8], attrs: &[Tlv], code: u8) -> (Vec<u8>, bool) {
         if v.len() < 5 + nh { return None; }
         Some(v[5 + nh..].to_vec())
     });
-    if f.b == V4u && !conv.is_empty() { return (conv.to_vec(), mp.map_or(false, |m| !m.is_empty())); }
-    (mp.unwrap_or_default(), false)
+    Carried { conv: if f.b == V4u { conv.to_vec() } else { vec![] }, mp: mp.unwrap_or_default() }
 }
 
 fn oracle_nlx(f: Fam, wd: &[u8], attrs: &[u8], ann: &[u8], reply: &str) -> Result<(), String> {
     if reply == "bad-op" || reply == "rej" { return Ok(()); }
     let src = walk(attrs).ok_or("mis-framed section accepted")?;
-    let (w, w_both) = carried(f, wd, &src, 15);
-    let (a, a_both) = carried(f, ann, &src, 14);
+    let cw = carried(f, wd, &src, 15);
+    let ca = carried(f, ann, &src, 14);
     let rest: Vec<u8> = src.iter().filter(|t| t.1 != 14 && t.1 != 15).flat_map(|t| wire_attr(t.0, t.1, &t.2, t.0 & 0x10 != 0)).collect();
-    oracle_readd(f, &w, &a, true, &rest, reply, true)?;
-    // IPv4 unicast NLRI in the conventional section AND in an MP attribute of AFI/SAFI 1/1: everything else having
-    // been judged, the property wants the NLRI of the MP attribute carried too (known finding K15, tagged so that
-    // only it is matched)
-    if (w_both || a_both) && reply.starts_with("ok w=") {
-        let toks: Vec<&str> = reply.split(' ').collect();
-        for (both, code, conv, got, what) in [(w_both, 15u8, wd, kv(toks[1], "w=")?, "withdrawals"), (a_both, 14u8, ann, kv(toks[2], "a=")?, "announcements")] {
-            if !both { continue; }
-            let (afi, safi, _) = fam_info(f);
-            let v = &src.iter().find(|t| t.1 == code).unwrap().2;
-            debug_assert!(u16::from_be_bytes([v[0], v[1]]) == afi && v[2] == safi);
-            let mpo = if code == 15 { v[3..].to_vec() } else { v[5 + v[3] as usize..].to_vec() };
-            let (mp_items, _) = ref_items(f, &mpo);
-            let (conv_items, clean) = ref_items(f, conv);
-            let (got_items, _) = ref_items(f, &got);
-            if !clean || mp_items.is_empty() { continue; }
-            let carried_all = mp_items.iter().all(|x| got_items.contains(x));
-            if !carried_all {
-                return Err(format!("[K15] IPv4 unicast {} both in the conventional section ({}) and in an MP attribute of AFI/SAFI 1/1 ({}): {} written, those of the MP attribute are lost",
-                    what, conv_items.len(), mp_items.len(), got_items.len()));
+    let src_len = mk_pdu(wd, attrs, ann).len();
+    // the property: EVERY NLRI of the builder's family the UPDATE carries, conventional section first, then the MP attribute
+    let full_w = want_of(f, &cw.conv).then(want_of(f, &cw.mp));
+    let full_a = want_of(f, &ca.conv).then(want_of(f, &ca.mp));
+    let full = oracle_readd(f, &full_w, &full_a, &rest, reply, true, src_len, false);
+    let (w_both, a_both) = (!cw.conv.is_empty() && !want_of(f, &cw.mp).items.is_empty(), !ca.conv.is_empty() && !want_of(f, &ca.mp).items.is_empty());
+    match full {
+        Ok(()) => Ok(()),
+        // IPv4 unicast NLRI in the conventional section AND in an MP attribute of AFI/SAFI 1/1: when the reply is right in
+        // every other respect and carries exactly the conventional NLRI on that side, the failure is the recorded loss
+        // (known finding K15, tagged so that only it is matched); any other failure is reported as it is
+        Err(e) if (w_both || a_both) && reply.starts_with("ok w=") => {
+            let kw = if w_both { want_of(f, &cw.conv) } else { full_w.clone() };
+            let ka = if a_both { want_of(f, &ca.conv) } else { full_a.clone() };
+            if kw.tol || ka.tol { return Err(e); }
+            match oracle_readd(f, &kw, &ka, &rest, reply, true, src_len, false) {
+                Ok(()) => {
+                    let (what, c, m) = if a_both { ("announcements", ca.conv.as_slice(), ca.mp.as_slice()) } else { ("withdrawals", cw.conv.as_slice(), cw.mp.as_slice()) };
+                    Err(format!("[K15] IPv4 unicast {} both in the conventional section ({}) and in an MP attribute of AFI/SAFI 1/1 ({}): only the conventional ones written, those of the MP attribute are lost",
+                        what, want_of(f, c).items.len(), want_of(f, m).items.len()))
+                }
+                Err(_) => Err(e),
             }
         }
+        Err(e) => Err(e),
     }
-    Ok(())
 }
 
-/// `wd` / `ann`: the NLRI octets of the builder's family the UPDATE carries; `attrs`: its attributes other
-/// than MP_REACH_NLRI / MP_UNREACH_NLRI
-fn oracle_readd(f: Fam, wd: &[u8], ann: &[u8], _x: bool, attrs: &[u8], reply: &str, four: bool) -> Result<(), String> {
+/// `Attribute::compose_len` of an attribute with `n` value octets as RFC 4271 4.3 frames it (extended length above 255)
+fn tlv_len(n: usize) -> usize { n + if n > 255 { 4 } else { 3 } }
+
+/// `want_w` / `want_a`: what the property demands of the built PDU's withdrawals / announcements; `attrs`: the
+/// UPDATE's attributes other than MP_REACH_NLRI / MP_UNREACH_NLRI; `src_len`: octets of the accepted UPDATE;
+/// `twice`: an `nlt` line
+fn oracle_readd(f: Fam, want_w: &Want, want_a: &Want, attrs: &[u8], reply: &str, four: bool, src_len: usize, twice: bool) -> Result<(), String> {
     if reply == "bad-op" || reply == "rej" { return Ok(()); }
     if reply == "panic" { return Err("re-adding the NLRI of an accepted UPDATE panicked".into()); }
     let src = walk(attrs).ok_or("mis-framed section accepted")?;
-    let (w_items, _) = ref_items(f, wd);
-    let (a_items, _) = ref_items(f, ann);
+    let mv = map_view(&src);
+    // The size of the PDU the property's result has, from the reference items alone (RFC 4271 4.3, RFC 4760 3 / 4):
+    // header, empty withdrawn-routes section, the attribute map re-encoded (in the `nl*` lines every value is written
+    // as received: width-dependent attributes are `bad-op` in a two-octet session), MP_REACH_NLRI with the default
+    // next hop of the family, MP_UNREACH_NLRI; NLRI in the canonical encoding of their values.
+    let (_, _, nh) = fam_info(f);
+    let wl: usize = want_w.items.iter().map(|x| x.len()).sum();
+    let al: usize = want_a.items.iter().map(|x| x.len()).sum();
+    // (an AS path may be written in any segmentation that has the same hops - `judge_attr`: between the shortest
+    // one and the one received)
+    let as_min = |t: &Tlv| -> Option<usize> {
+        if !(t.1 == 2 || t.1 == 17) || classify_w(t, four) != Class::Typed { return None; }
+        let hops = ref_hops_w(&t.2, if four || t.1 == 17 { 4 } else { 2 })?;
+        let (mut n, mut run) = (0usize, 0usize);
+        let flush = |run: &mut usize, n: &mut usize| { if *run > 0 { *n += 2 * ((*run + 254) / 255) + 4 * *run; *run = 0; } };
+        for h in &hops { match h { RHop::Asn(_) => run += 1, RHop::Seg(_, b) => { flush(&mut run, &mut n); n += 2 + b.len(); } } }
+        flush(&mut run, &mut n);
+        Some(n)
+    };
+    let map_lo: usize = mv.iter().map(|t| tlv_len(as_min(t).map_or(t.2.len(), |m| m.min(t.2.len())))).sum();
+    let map_hi: usize = mv.iter().map(|t| tlv_len(as_min(t).map_or(t.2.len(), |m| m.max(t.2.len())))).sum();
+    let mp_len = if al > 0 { tlv_len(2 + 1 + 1 + nh + 1 + al) } else { 0 } + if wl > 0 { tlv_len(3 + wl) } else { 0 };
+    let size_lo = 23 + map_lo + mp_len;
+    let size_hi = 23 + map_hi + mp_len + want_w.slack + want_a.slack;
     if reply == "err" {
-        // only an UPDATE that cannot fit 4096 octets may be refused
-        let (_, _, nh) = fam_info(f);
-        let wl: usize = w_items.iter().map(|x| x.len() + 1).sum();   // (+1: a FlowSpec length may take two octets)
-        let al: usize = a_items.iter().map(|x| x.len() + 1).sum();
-        if 23 + attrs.len() + wl + al + nh + 20 > MAX_PDU { return Ok(()); }
-        return Err("the builder refused an UPDATE that fits a PDU".into());
+        // "succeeds": a refusal is a failure of the clause.  `into_message` has one reason to refuse a builder seeded
+        // this way - more than MAX_PDU octets: when the re-framed PDU demonstrably exceeds 4096 octets the failure is
+        // the recorded one (known finding K16, tagged so that only it is matched); a refusal of a PDU that fits is not.
+        if size_hi <= MAX_PDU { return Err(format!("the builder refused an UPDATE whose re-framed PDU has {} octets (<= 4096)", size_hi)); }
+        // (`nlt`: the property does not speak of a message re-added twice - a doubled content that cannot fit is refused rightly)
+        if size_lo > MAX_PDU && twice { return Ok(()); }
+        if size_lo > MAX_PDU {
+            return Err(format!("[K16] the re-add did not succeed on an accepted UPDATE of {} octets: re-framed with its NLRI in MP attributes the PDU has {} > 4096 octets (PduTooLarge)", src_len, size_lo));
+        }
+        return Ok(());   // an item the RFCs do not define decides the size: not judged
     }
     let toks: Vec<&str> = reply.split(' ').collect();
-    if toks.len() != 4 || toks[0] != "ok" { return Err(format!("built PDU does not decode: {}", trunc(reply))); }
+    if toks.len() != 7 || toks[0] != "ok" { return Err(format!("built PDU does not decode: {}", trunc(reply))); }
     let w = kv(toks[1], "w=")?;
     let a = kv(toks[2], "a=")?;
     let o = kv(toks[3], "o=")?;
+    let mr = kv(toks[4], "r=")?;
+    let mu = kv(toks[5], "u=")?;
+    let total = 23 + w.len() + a.len() + o.len() + mr.len() + mu.len();
+    if total > MAX_PDU { return Err(format!("the builder wrote a PDU of {} octets (> 4096)", total)); }
     // (`*tol`: the list – received or written – reaches an item the RFCs do not define; the items before it are judged)
-    let (w_items, _, wtol) = ref_items_tol(f, wd);
-    let (a_items, _, atol) = ref_items_tol(f, ann);
     let (gw, wclean, gwtol) = ref_items_tol(f, &w);
     let (ga, aclean, gatol) = ref_items_tol(f, &a);
     if (!wclean && !gwtol) || (!aclean && !gatol) { return Err("the NLRI written do not all parse".into()); }
@@ -744,9 +835,35 @@ fn oracle_readd(f: Fam, wd: &[u8], ann: &[u8], _x: bool, attrs: &[u8], reply: &s
     let same = |got: &Vec<Vec<u8>>, want: &Vec<Vec<u8>>, tol: bool| -> bool {
         if tol { got.len() >= want.len() && got[..want.len()] == want[..] } else { got == want }
     };
-    if !same(&gw, &w_items, wtol) { return Err(format!("withdrawals differ: {} received, {} written", w_items.len(), gw.len())); }
-    if !same(&ga, &a_items, atol) { return Err(format!("announcements differ: {} received, {} written", a_items.len(), ga.len())); }
-    judge_list_w("builder", &map_view(&src), &o, four, Read::Same)
+    if !same(&gw, &want_w.items, want_w.tol) { return Err(format!("withdrawals differ: {} received, {} written", want_w.items.len(), gw.len())); }
+    if !same(&ga, &want_a.items, want_a.tol) { return Err(format!("announcements differ: {} received, {} written", want_a.items.len(), ga.len())); }
+    // the MP attributes that carry them are of the builder's family and framed as RFC 4760 3 / 4 say (optional
+    // non-transitive, extended length exactly above 255 octets, a next hop of as many octets as its length octet
+    // says, reserved octet 0).  WHICH next hop is written is not in the property (tools/props/C07.json `assumptions`):
+    // its octets - the family's default one today - are compared by the correspondence (`r=` and the digest).
+    let (afi, safi, _) = fam_info(f);
+    let fam3 = [(afi >> 8) as u8, afi as u8, safi];
+    let mut nh_got = nh;
+    for (code, m, n_nlri) in [(14u8, &mr, a.len()), (15u8, &mu, w.len())] {
+        if m.is_empty() { if n_nlri > 0 { return Err(format!("NLRI outside an attribute {}", code)); } continue; }
+        let hl = if m[0] & 0x10 != 0 { 4 } else { 3 };
+        if m.len() < hl + 3 { return Err(format!("attribute {} of the built PDU is cut short", code)); }
+        let body = m.len() - hl;   // AFI, SAFI (, next hop length, next hop, reserved)
+        let vlen = body + n_nlri;
+        let mut want = vec![if vlen > 255 { 0x90u8 } else { 0x80 }, code];
+        if vlen > 255 { want.extend((vlen as u16).to_be_bytes()); } else { want.push(vlen as u8); }
+        want.extend(fam3);
+        if m.len() < want.len() || m[..want.len()] != want[..] { return Err(format!("attribute {} of the built PDU: header / AFI / SAFI {}, expected {}", code, hex(&m[..m.len().min(want.len())]), hex(&want))); }
+        if code == 14 {
+            let t = &m[want.len()..];
+            if t.len() < 2 || t.len() != t[0] as usize + 2 || t[t.len() - 1] != 0 { return Err(format!("MP_REACH_NLRI of the built PDU: next hop / reserved octet {}", hex(t))); }
+            nh_got = t[0] as usize;
+        } else if m.len() != want.len() { return Err("MP_UNREACH_NLRI of the built PDU: octets between SAFI and NLRI".into()); }
+    }
+    // the size the reference computes is the size written (this is the arithmetic the `err` branch judges with)
+    let adj = |n: usize| if al > 0 { n + tlv_len(4 + nh_got + 1 + al) - tlv_len(4 + nh + 1 + al) } else { n };
+    if !gwtol && !gatol && (total < adj(size_lo) || total > adj(size_hi)) { return Err(format!("built PDU of {} octets, {}..={} expected", total, adj(size_lo), adj(size_hi))); }
+    judge_list_w("builder", &mv, &o, four, Read::Same)
 }
 
 // ---------------------------------------------------------------------------
@@ -1181,6 +1298,87 @@ impl Prop for C07 {
             let all: Vec<u8> = [pre, attrs, post].concat();
             lines.push(format!("nlx {} {} {} {}", fam_name(f), hex(&wd), hex(&all), hex(&ann)));
         }
+        // 5d. the size boundary of the re-add (audit R1 / R2 / R6): accepted UPDATEs whose re-framed PDU lands on and
+        //     around 4096 octets.  Conventional IPv4 NLRI grow by 13 octets when they move into MP_REACH_NLRI (4 header,
+        //     3 AFI/SAFI, 5 next hop, 1 reserved) and by 7 into MP_UNREACH_NLRI; an MP source with a next hop shorter
+        //     than the family's default one grows by the difference; sources over 4096 octets (from_octets takes
+        //     them) that shrink under the map (a repeated attribute) fit again.  `err` replies here are K16.
+        {
+            // (i) ORIGIN + conventional /24s (+ one shorter prefix to hit every octet): source of exactly `t` octets
+            let conv_fill = |ap: bool, n: usize| -> Vec<u8> {
+                let unit = if ap { 8 } else { 4 };
+                let mut v = Vec::new();
+                let (k, r) = (n / unit, n % unit);
+                for i in 0..k { if ap { v.extend((i as u32).to_be_bytes()); } v.extend([24u8, 10 + (i / 65536) as u8, (i / 256) as u8, i as u8]); }
+                // the remainder as one prefix of r - 1 address octets (without path id) where that is an NLRI
+                if !ap { match r { 1 => v.push(0), 2 => v.extend([8u8, 99]), 3 => v.extend([16u8, 99, 1]), _ => {} } }
+                v
+            };
+            let origin = wire_attr(0x40, 1, &[0], false);
+            let ts: &[usize] = if tier == Tier::Quick { &[4079, 4082, 4083, 4084, 4085, 4089, 4090, 4095, 4096] } else { &[4070, 4075, 4076, 4077, 4078, 4079, 4080, 4081, 4082, 4083, 4084, 4085, 4086, 4087, 4088, 4089, 4090, 4091, 4092, 4093, 4094, 4095, 4096] };
+            for &t in ts {
+                for ap in [false, true] {
+                    let name = if ap { "a" } else { "" };
+                    let room = t - 23 - origin.len();
+                    // announcements only; withdrawals only; both (half / half)
+                    lines.push(format!("nl c4{} - {} {}", name, hex(&conv_fill(ap, room)), hex(&origin)));
+                    lines.push(format!("nl c4{} {} - {}", name, hex(&conv_fill(ap, room)), hex(&origin)));
+                    lines.push(format!("nl c4{} {} {} {}", name, hex(&conv_fill(ap, room / 2)), hex(&conv_fill(ap, room - room / 2)), hex(&origin)));
+                    lines.push(format!("nlx v4u{} - {} {}", name, hex(&origin), hex(&conv_fill(ap, room))));
+                }
+            }
+            // (ii) every NLRI type: a few NLRI and a filler attribute that brings the source to exactly `t` octets
+            let ts2: &[usize] = &[4076, 4082, 4083, 4084, 4089, 4090, 4095, 4096, 4097, 4110, 5000, 40000];
+            for (i, &f) in fams.iter().enumerate() {
+                for (j, &t) in ts2.iter().enumerate() {
+                    if tier == Tier::Quick && !f.conv && (i + j) % 3 != 0 && t != 4096 && t != 4097 { continue; }
+                    let ann = gen_nlri(rng, f, 3);
+                    let wd = if rng.bool() { gen_nlri(rng, f, 2) } else { vec![] };
+                    let base = nl_pdu(f, &wd, &ann, &origin).len() + 4;
+                    if base > t { continue; }
+                    let mut at = origin.clone();
+                    at.extend(wire_attr(0xC0, UNKNOWN[(i + j) % UNKNOWN.len()], &rng.bytes(t - base), true));
+                    lines.push(format!("{} {} {} {} {}", if j % 4 == 3 { "nl2" } else { "nl" }, fam_name(f), hex(&wd), hex(&ann), hex(&at)));
+                }
+                // a source over 4096 octets that fits again: the map keeps the first of a repeated attribute
+                let ann = gen_nlri(rng, f, 3);
+                let big = wire_attr(0xC0, 99, &rng.bytes(2100), true);
+                lines.push(format!("nl {} - {} {}", fam_name(f), hex(&ann), hex(&[origin.clone(), big.clone(), big].concat())));
+            }
+            // (iii) MP sources whose next hop is shorter (0 octets) or longer (32) than the family's default one, filled
+            //       with NLRI of the family up to around 4096 octets
+            for &f in mpf.iter() {
+                let (afi, safi, nh) = fam_info(f);
+                for &(nhl, target) in &[(0usize, 4096usize), (0, 4096 - nh), (32, 4096), (32, 4096 + 32 - nh)] {
+                    if tier == Tier::Quick && rng.chance(1, 2) { continue; }
+                    let mut v = Vec::new();
+                    v.extend(afi.to_be_bytes()); v.push(safi); v.push(nhl as u8); v.extend(std::iter::repeat(2u8).take(nhl)); v.push(0);
+                    let goal = target - rng.usize(0, 6);
+                    let mut guard = 0;
+                    while 23 + origin.len() + 4 + v.len() < goal && guard < 4000 {
+                        let one = gen_nlri(rng, f, 1);
+                        if 23 + origin.len() + 4 + v.len() + one.len() <= goal + 3 && one.len() < 300 { v.extend(one); }
+                        guard += 1;
+                    }
+                    lines.push(format!("nlx {} - {} -", fam_name(f), hex(&[origin.clone(), mp_attr(14, &v)].concat())));
+                }
+            }
+        }
+        // 5e. the message re-added TWICE by one builder (`nlt`, audit R5): the second round extends the MP builders the
+        //     first one created (update_builder.rs:250 / :277) - every NLRI of the family is carried twice, in order
+        let n_nlt = if tier == Tier::Quick { 280 } else { 20_000 };
+        for i in 0..n_nlt {
+            let f = fams[i % fams.len()];
+            let mut wd = if rng.chance(1, 2) { gen_nlri(rng, f, 4) } else { vec![] };
+            let mut ann = if rng.chance(3, 4) { gen_nlri(rng, f, 5) } else { vec![] };
+            if !f.conv && rng.chance(1, 6) { if rng.bool() { ann = damage_nlri(rng, ann); } else { wd = damage_nlri(rng, wd); } }
+            let mut parts: Vec<u8> = Vec::new();
+            for _ in 0..rng.usize(0, 3) {
+                let a = match rng.below(6) { 0..=3 => { let c = *rng.pick(&TYPED); gen_typed(rng, c) } 4 => gen_unknown(rng), _ => gen_invalid(rng) };
+                if parts.len() + a.len() < 1500 { parts.extend(a); }
+            }
+            lines.push(format!("nlt {} {} {} {}", fam_name(f), hex(&wd), hex(&ann), hex(&parts)));
+        }
         // 6. two-octet sessions: every typed kind alone, AS paths / AGGREGATOR of both widths, sections
         for &c in &TYPED {
             for _ in 0..3 { lines.push(re2_line(&gen_typed2(rng, c))); }
@@ -1234,11 +1432,15 @@ impl Prop for C07 {
             ["re2", a] => match strict_unhex(a) { Some(a) => exec_re(&a, Some(false)), None => "bad-op".into() },
             ["re2w", a] => match strict_unhex(a) { Some(a) => exec_re(&a, Some(true)), None => "bad-op".into() },
             ["nl", f, w, a, at] => match (fam_of(f), strict_unhex(w), strict_unhex(a), strict_unhex(at)) {
-                (Some(f), Some(w), Some(a), Some(at)) => exec_nl(f, &w, &a, &at, true),
+                (Some(f), Some(w), Some(a), Some(at)) => exec_nl(f, &w, &a, &at, true, false),
+                _ => "bad-op".into(),
+            },
+            ["nlt", f, w, a, at] => match (fam_of(f), strict_unhex(w), strict_unhex(a), strict_unhex(at)) {
+                (Some(f), Some(w), Some(a), Some(at)) => exec_nl(f, &w, &a, &at, true, true),
                 _ => "bad-op".into(),
             },
             ["nl2", f, w, a, at] => match (fam_of(f), strict_unhex(w), strict_unhex(a), strict_unhex(at)) {
-                (Some(f), Some(w), Some(a), Some(at)) => exec_nl(f, &w, &a, &at, false),
+                (Some(f), Some(w), Some(a), Some(at)) => exec_nl(f, &w, &a, &at, false, false),
                 _ => "bad-op".into(),
             },
             ["nlx", f, w, at, a] => match (fam_of(f), strict_unhex(w), strict_unhex(at), strict_unhex(a)) {
@@ -1255,11 +1457,15 @@ impl Prop for C07 {
             ["re", a] => match strict_unhex(a) { Some(a) => oracle_re(&a, reply, true), None => Ok(()) },
             ["re2", a] | ["re2w", a] => match strict_unhex(a) { Some(a) => oracle_re(&a, reply, false), None => Ok(()) },
             ["nl", f, w, a, at] => match (fam_of(f), strict_unhex(w), strict_unhex(a), strict_unhex(at)) {
-                (Some(f), Some(w), Some(a), Some(at)) => oracle_nl(f, &w, &a, &at, reply, true),
+                (Some(f), Some(w), Some(a), Some(at)) => oracle_nl(f, &w, &a, &at, reply, true, false),
+                _ => Ok(()),
+            },
+            ["nlt", f, w, a, at] => match (fam_of(f), strict_unhex(w), strict_unhex(a), strict_unhex(at)) {
+                (Some(f), Some(w), Some(a), Some(at)) => oracle_nl(f, &w, &a, &at, reply, true, true),
                 _ => Ok(()),
             },
             ["nl2", f, w, a, at] => match (fam_of(f), strict_unhex(w), strict_unhex(a), strict_unhex(at)) {
-                (Some(f), Some(w), Some(a), Some(at)) => oracle_nl(f, &w, &a, &at, reply, false),
+                (Some(f), Some(w), Some(a), Some(at)) => oracle_nl(f, &w, &a, &at, reply, false, false),
                 _ => Ok(()),
             },
             ["nlx", f, w, at, a] => match (fam_of(f), strict_unhex(w), strict_unhex(at), strict_unhex(a)) {
@@ -1293,7 +1499,7 @@ impl Prop for C07 {
                 };
                 format!("{}:{}:{}", op, r, kinds)
             }
-            [op @ ("nl" | "nl2"), f, ..] => format!("{}:{}:{}", op, f, r),
+            [op @ ("nl" | "nl2" | "nlt"), f, ..] => format!("{}:{}:{}", op, f, r),
             ["nlx", f, w, at, a] => {
                 // which sections carry NLRI, and whether an MP attribute is of the builder's family
                 let own = |code: u8| -> &'static str {
@@ -1303,7 +1509,14 @@ impl Prop for C07 {
                         Some(t) => if t.2.len() >= 3 && u16::from_be_bytes([t.2[0], t.2[1]]) == afi && t.2[2] == safi { "own" } else { "other" },
                     }
                 };
-                format!("nlx:{}:conv{}{}:reach-{}:unreach-{}", r, if *w != "-" { "W" } else { "" }, if *a != "-" { "A" } else { "" }, own(14), own(15))
+                // `+dupmp`: MP_REACH_NLRI / MP_UNREACH_NLRI more than once (RFC 7606 3.g: the NLRI of the later ones are not
+                // judged); `+foreign`: NLRI of a family other than the builder's are present - they are not re-added (the
+                // clause is per builder family, tools/props/C07.json `assumptions`)
+                let n_of = |code: u8| strict_unhex(at).and_then(|x| walk(&x)).map_or(0, |ws| ws.iter().filter(|t| t.1 == code).count());
+                let v4 = fam_of(f).map_or(false, |f| f.b == V4u);
+                let foreign = own(14) == "other" || own(15) == "other" || (!v4 && (*w != "-" || *a != "-"));
+                format!("nlx:{}:conv{}{}:reach-{}:unreach-{}{}{}", r, if *w != "-" { "W" } else { "" }, if *a != "-" { "A" } else { "" }, own(14), own(15),
+                    if n_of(14) > 1 || n_of(15) > 1 { "+dupmp" } else { "" }, if foreign { "+foreign" } else { "" })
             }
             _ => format!("other:{}", r),
         }
